@@ -686,7 +686,7 @@ func ksDelay(rng *rand.Rand, side int, I int64, late bool) int64 {
 }
 
 func ksWire(rng *rand.Rand, side int, I int64, n int) []kaStep {
-	pAns := []int{10, 35, 60, 85}[rng.Intn(4)]
+	pAns := []int{15, 45, 70, 90}[rng.Intn(4)]
 	var out []kaStep
 	for i := 0; i < n; i++ {
 		x := rng.Intn(100)
@@ -704,6 +704,32 @@ func ksWire(rng *rand.Rand, side int, I int64, n int) []kaStep {
 		}
 	}
 	return out
+}
+
+// ksServed: the number of ticks the loop of `side` serves if nothing but the wire script happens
+// (the tick on which it closes the session or learns that ping is unsupported; past the script the
+// wire is healthy, so a loop that survives the script goes on).
+func ksServed(sc *ksScn, side int) int {
+	T := sc.T[side]
+	if T < 1 {
+		T = 1
+	}
+	fails := 0
+	for i, st := range sc.wire[side] {
+		inTime := st.kind != 'n' && st.d < sc.I[side]/2
+		switch {
+		case inTime && st.kind == 'a':
+			fails = 0
+		case inTime && st.kind == 'm':
+			return i + 1
+		default:
+			fails++
+			if fails >= T {
+				return i + 1
+			}
+		}
+	}
+	return len(sc.wire[side]) + 3
 }
 
 func ksHorizon(sc *ksScn, from int64) int64 {
@@ -767,10 +793,24 @@ func ksRandom(rng *rand.Rand, maxLen, maxT int) *ksScn {
 	}
 	I := sc.I[ref]
 	k := int64(rng.Intn(len(sc.wire[ref]) + 2))
+	if served := ksServed(sc, ref); k > int64(served) && rng.Intn(5) > 0 {
+		k = int64(rng.Intn(served + 1)) // mostly while that loop is still at work
+	}
+	// how long ping k of the reference side is in flight if only the wire script matters
+	w := int64(0)
+	if k >= 1 && int(k) <= len(sc.wire[ref]) {
+		if st := sc.wire[ref][k-1]; st.kind == 'n' || st.d >= I/2 {
+			w = I / 2
+		} else {
+			w = st.d
+		}
+	}
 	switch m := rng.Intn(10); {
 	case k == 0 || m == 0: // before the first tick (of the reference side)
 		sc.te = phi + 107 + 10*rng.Int63n((I-110)/10)
-	case m < 5: // while ping k is (or may be) in flight
+	case m < 5 && w >= 20: // while ping k is in flight
+		sc.te = phi + k*I + 7 + 10*rng.Int63n((w-8)/10+1)
+	case m < 3: // shortly after tick k
 		sc.te = phi + k*I + 7 + 10*rng.Int63n(I/20)
 	default: // between the end of ping k and tick k+1
 		sc.te = phi + k*I + I/2 + 7 + 10*rng.Int63n(I/20-1)
@@ -882,6 +922,9 @@ func TestVerifKeepAliveSess(t *testing.T) {
 	}
 	if p := os.Getenv("VERIF_REPLAY"); p != "" {
 		replay(p, "replay")
+		if n == 0 {
+			out.line("replay", "reset", "ok", "reset") // a replay of the other stream of this engine
+		}
 		return
 	}
 	if p := os.Getenv("VERIF_CORPUS"); p != "" {
@@ -898,7 +941,7 @@ func TestVerifKeepAliveSess(t *testing.T) {
 		}
 	}
 	rng := verifRng(1313)
-	nr := verifN(1500, 30000)
+	nr := verifN(1500, 12000)
 	for i := 0; i < nr; i++ {
 		if verifThorough() {
 			emit("q", ksRandom(rng, 14, 6))
